@@ -244,6 +244,7 @@ def run(rep, tier):
     )
     rep.guard("R17.1", "is_async loop", lambda: r1_loop(rep))
     rep.guard("R17.1", "name under test", lambda: r1_name(rep))
+    rep.guard("R17.1", "macro option order", lambda: r1_macro(rep))
     rep.guard("R17.2", "default table", lambda: r2_default(rep))
     rep.guard("R17.3", "ensure_all_used", lambda: r3_ensure(rep))
     rep.guard("R17.3", "RustWasm::finish", lambda: r3_finish(rep))
@@ -530,6 +531,37 @@ def r1_name(rep):
            fn.loc(none.node if none else None))
 
 
+def r1_macro(rep):
+    """`generate!({ async: ["a", "b"] })`: the directives reach the set in the order written."""
+    c = mir.load("ws", "wit_bindgen_rust_macro", "procmacro")
+    fs = [f for f in c.fns.values() if f.calls("AsyncFilterSet::push")]
+    rep.floor("R17.1", "macro functions that push --async directives", len(fs), 1)
+    for f in fs:
+        rep.saw(f)
+        who = f.npath.replace("crate::", "")
+        for p in f.calls("AsyncFilterSet::push"):
+            loops = [x for x in f.calls() if mir.norm(x.callee).endswith("::next")
+                     and p.bb in f.reachable(x.bb) and x.bb in f.reachable(p.bb)]
+            if len(loops) != 1:
+                rep.ob("R17.1", f"macro {who}: the directive list is pushed from one loop", False, f"{len(loops)} loops", f.loc(p.bb))
+                continue
+            nx = loops[0]
+            names, root = call_chain(f, nx.args[0])
+            short = [n.split("::")[-1] for n in names]
+            bad = [n for n in short if n in ("rev", "skip", "step_by", "take", "filter", "rposition", "sorted", "rev_iter")]
+            rep.ob("R17.1", f"macro {who}: `async: [..]` directives are pushed in the order written",
+                   not bad and short[:1] == ["into_iter"] and "parse_terminated" in short,
+                   f"iterator chain {short}", f.loc(nx.bb))
+            vnames, vroot = call_chain(f, p.args[1])
+            rep.ob("R17.1", f"macro {who}: each pushed directive is the text of the current list element",
+                   any(n.endswith("LitStr::value") for n in vnames) and mir.norm(nx.callee) in vnames,
+                   f"value chain {[n.split('::')[-1] for n in vnames]}", f.loc(p.bb))
+            o = f.origin(p.args[0])
+            rep.ob("R17.1", f"macro {who}: the list starts from an empty set",
+                   o.get("kind") == "call" and mir.norm(o["call"].callee).endswith("Default>::default"),
+                   f"set comes from {o.get('kind')}", f.loc(p.bb))
+
+
 # ================================================================================================================
 # R17.2  default: the WIT's own async-ness
 # ================================================================================================================
@@ -711,6 +743,12 @@ def r4_sites(rep):
                     continue
                 want = SITE_DIRECTION[(crate, me)]
                 nconst += 1
+                ki = [i for i, t in enumerate(x.arg_types) if "WorldKey" in t]
+                oi = f.origin(x.args[ki[0]]) if len(ki) == 1 else {}
+                if oi.get("kind") == "call" and mir.norm(oi["call"].callee).endswith("Option::map") and oi["call"].args:
+                    oi = f.origin(oi["call"].args[0])       # `interface.map(|p| p.1)`
+                rep.ob("R17.4", f"{inst}: asks about the interface it was given (a parameter, not a constant)",
+                       oi.get("kind") == "arg", f"interface argument comes from {oi.get('kind')}", f.loc(x.bb))
                 rep.ob("R17.4", f"{inst}: is_import is the constant {'true' if want else 'false'}",
                        o.get("kind") == "const" and o.get("v") == int(want),
                        f"passes {o.get('kind')} {o.get('v', o.get('place', ''))}", f.loc(x.bb))
